@@ -47,6 +47,10 @@ EXPLANATION += ' Added: (R11) the look-ahead of every frame loop (blank-line ski
 TECHNIQUE += '; state clauses borrowed from C16'
 EXPLANATION += ' R13 treats `next(lit, default)` inside a record like a tolerant `try` (legitimate only as a loop-head read whose default ends the loop) and allows a record-head helper inside a tolerant `try`; the frame parser may be a function load_one hands its arguments to unchanged (R6, R11). Added: (R14, R15) nothing is carried from one frame to the next through module-level objects or memoised results (C16-R1 / R3).'
 # --- end metadata batch 8
+# --- metadata added after the round-2 refactoring twins
+TECHNIQUE += '; generator evaluation of the frame loops with a recording frame parser'
+EXPLANATION += " R6: each frame-concatenation load_many is interpreted to its end on a model line iterator with the frame parser replaced by a recorder (one line per frame, a marked dictionary as result): it yields exactly the parser's results, in order, and hands on the iterator and its own arguments -- whether the yield is written `yield load_one(...)` or through a local. The look-ahead rules (R7 / R11) stop at the first call of the frame parser, wherever it stands."
+# --- end metadata round-2 twins
 
 
 def run(ctx):
